@@ -35,6 +35,15 @@ ATTACKS = [
     ({}, '@use "sass:math" with ($pi: 3); a { b: math.$pi; }'),
     ({}, '@use "sass:math"; math.$pi: 3; a { b: math.$pi; }'),
     ({}, '@use "sass:math"; a { b: math.$pi; c: math.$e; d: math.div(1, 3); }'),
+    ({}, '@use "sass:math" as m; m.$pi: 3; a { b: m.$pi; }'),
+    ({}, '@use "sass:math" as m; m.$e: 2 !default; m.$epsilon: 1; a { b: m.$e; }'),
+    ({}, '@use "sass:math" as pi; pi.$pi: 3; a { b: pi.$pi; }'),
+    ({}, '@use "sass:math" as string; string.$pi: 4; a { b: string.$pi; }'),
+    ({}, '@use "sass:string" as math; math.$pi: 5; a { b: c; }'),
+    ({}, '@use "sass:math" as m; m.$max-safe-integer: 1; m.$min-number: 1; a { b: m.$max-safe-integer; }'),
+    ({}, '@use "sass:math" as m; @use "sass:math"; m.$pi: 6; a { b: math.$pi; }'),
+    ({}, '@forward "sass:math" as m-*; $m-pi: 7 !global; a { b: c; }'),
+    ({}, '@use "sass:math" as m; a { b: m.$pi; c: m.$e; d: m.$epsilon; e: m.$max-safe-integer; f: m.$min-safe-integer; g: m.$max-number; h: m.$min-number; }'),
     ({}, '@use "sass:math" as *; $pi: 3 !global; a { b: $pi; }'),
     ({}, '@use "sass:math" as *; a { b: $pi; c: $e; }'),
     ({}, '@use "sass:math" as *; $pi: 4; a { b: $pi; c: max(1, 2); }'),
